@@ -190,10 +190,32 @@ impl Family {
 }
 
 /// Every (family, n, value) of a tier.
+/// Every n up to 1 100, then 2^k - 8 ..= 2^k + 2: for the families in which n is the *position* of
+/// a deciding character, a staging buffer of any size up to 1 KiB (or of 2 / 4 KiB) with any
+/// small reserve has its critical fill levels in this set - they are not at powers of two
+/// (a 512-byte buffer that keeps 4 bytes free goes wrong at 507 and 508).
+pub fn dense_thresholds(max: usize) -> Vec<usize> {
+    let mut v: Vec<usize> = (0..=1100).collect();
+    for k in [2048usize, 4096, 8192, 16384, 65536] {
+        v.extend(k - 8..=k + 2);
+    }
+    v.retain(|&n| n <= max);
+    v
+}
+
+impl Family {
+    pub fn sizes(self, thorough: bool) -> Vec<usize> {
+        match self {
+            Family::RunThenControl | Family::RunThenQuote | Family::RunThenWide | Family::WideRunThenControl => dense_thresholds(self.max(thorough)),
+            _ => thresholds(self.max(thorough)),
+        }
+    }
+}
+
 pub fn all(thorough: bool) -> Vec<(Family, usize, RV)> {
     let mut out = Vec::new();
     for f in FAMILIES {
-        for n in thresholds(f.max(thorough)) {
+        for n in f.sizes(thorough) {
             out.push((f, n, f.build(n)));
         }
     }
